@@ -141,25 +141,48 @@ def r1(ctx):
     ok_sinks = {"create_command", "run_in_shell", "run", "_get_command", "get_command", "_run_batch_command", "execute", "_get_run_command",
                 "_get_ssh_client_process"}  # the last one passes it as process environment (asyncssh env=), not through a shell
     base = "streamflow.core.deployment.Connector"
-    for f in p.concrete_impls(base, "run"):
-        if "environment" not in f.params:
-            continue
-        bad = []
-        uses = 0
+    def uses_ok(f, pname, depth=2):
+        """(bad uses, number of uses) of parameter `pname` of f: every load must be handed to a known renderer, be a
+        mere test, or be forwarded to a private helper of the class whose own uses are acceptable."""
+        bad, uses = [], 0
         for n in f.body_nodes():
-            if isinstance(n, ast.Name) and n.id == "environment" and isinstance(n.ctx, ast.Load):
+            if isinstance(n, ast.Name) and n.id == pname and isinstance(n.ctx, ast.Load):
                 uses += 1
                 par = getattr(n, "_parent", None)
+                kwname = None
                 if isinstance(par, ast.keyword):
-                    par = getattr(par, "_parent", None)
+                    kwname, par = par.arg, getattr(par, "_parent", None)
                 if isinstance(par, ast.Call):
                     fn = par.func
                     nm = fn.attr if isinstance(fn, ast.Attribute) else (fn.id if isinstance(fn, ast.Name) else "?")
                     if nm in ok_sinks:
                         continue
+                    if depth and isinstance(fn, ast.Attribute) and isinstance(fn.value, ast.Name) and fn.value.id == "self" and nm.startswith("_"):
+                        hs = [p.functions.get(q) for q in p.resolve_call(f, par, fanout=False)]
+                        hs = [h for h in hs if h is not None and h.cls is not None]
+                        if hs:
+                            ok_all = True
+                            for h in hs:
+                                a = h.node.args
+                                pos = [x.arg for x in a.posonlyargs + a.args]
+                                hp = kwname or (pos[par.args.index(n) + 1] if n in par.args and par.args.index(n) + 1 < len(pos) else None)
+                                if hp is None:
+                                    ok_all = False
+                                    break
+                                hb, hu = uses_ok(h, hp, depth - 1)
+                                if hb or not hu:
+                                    ok_all = False
+                            if ok_all:
+                                continue
                 if _in_test_position(n):
                     continue
                 bad.append(unparse(par)[:80] if par is not None else "?")
+        return bad, uses
+
+    for f in p.concrete_impls(base, "run"):
+        if "environment" not in f.params:
+            continue
+        bad, uses = uses_ok(f, "environment")
         ctx.ob("R1", f"{f.qualname.rsplit('.', 2)[-2]}.run hands the environment to a shared renderer", not bad and uses > 0, func=f, node=f.node,
                instance=f"who-renders:{f.qualname}", message=f"{f.qualname} renders the environment itself: {bad}")
 
